@@ -295,6 +295,8 @@ func main() {
 		dump(os.Args[2])
 	case "idents":
 		idents()
+	case "parsetype":
+		parseTypeLoop()
 	case "typetree":
 		typetree()
 	case "primalias":
